@@ -680,6 +680,9 @@ func sortedTargets() []string {
 
 func main() {
 	lib.Main(func(c lib.Case) (lib.Out, any) {
+		if c.S("kind") == "varint" {
+			return varintCase(c)
+		}
 		name := c.S("target")
 		switch name {
 		case "__list__":
